@@ -27,6 +27,7 @@ type Stats struct {
 	Samples      []json.RawMessage `json:"samples"`
 	Excluded     map[string]int    `json:"excluded"`
 	Inconclusive int               `json:"inconclusive"`
+	InfraErrors  int               `json:"infra_errors"`
 	Exhaustive   []string          `json:"exhaustive,omitempty"`
 	Notes        []string          `json:"notes,omitempty"`
 	sampleSeen   int
@@ -103,6 +104,18 @@ func (s *Stats) Inconcl() {
 	s.mu.Lock()
 	s.Inconclusive++
 	s.mu.Unlock()
+}
+
+// Infra counts a case that could not be judged because the harness's own infrastructure failed;
+// returns true when there were so many that the run itself is inconclusive.
+func (s *Stats) Infra(err error) bool {
+	s.mu.Lock()
+	defer s.mu.Unlock()
+	s.InfraErrors++
+	if len(s.Notes) < 5 {
+		s.Notes = append(s.Notes, "infrastructure error (case not judged): "+err.Error())
+	}
+	return s.InfraErrors > 25 && s.InfraErrors*10 > s.Evaluations
 }
 
 func (s *Stats) MarkExhaustive(what string) {
